@@ -222,7 +222,7 @@ def replay(ctx, rec):
 
 MANIFEST = {
     "text": "Exploration: generated task specs run through rally's real executor/scheduler stack on a virtual clock; request counts, warm-up flags, "
-    "time-period cut-off, sample-type and progress monotonicity, scheduled-time monotonicity, deterministic pacing weight*C/T, ramp-up delays and the "
+    "time-period cut-off, sample-type and progress monotonicity, scheduled-time monotonicity, deterministic pacing weight*C/T, ramp-up delays (also with a wider schedule element before or after the executed one) and the "
     "Poisson mean are compared with reference functions over the spec on every execution.",
     "note": "Trusts the virtual-time loop and the simulated node; scheduled times are those the real ScheduleHandle yields.",
     "technique": "runtime monitor: reference functions over the task spec evaluated on recorded schedule tuples, wire log and samples (virtual time)",
